@@ -48,6 +48,9 @@ var c20Items = []c20Item{
 	{Kind: "directive", Text: ":- show(r).", Goal: "show(r)"}, // r/1 is only defined by EARLIER loads (or not at all) in the texts that use this item
 }
 
+// texts that end inside a token or a bracketed comment
+var c20Tails = []string{"'abc", "\"abc", "/* open", "0'", "p('x\\", "p(", "p", "/* open *", "r(1). 'x"}
+
 var c20Faults = []c20Item{
 	{Kind: "fault", Text: "p(."},
 	{Kind: "fault", Text: "p(a) p(b)."},
@@ -62,6 +65,8 @@ type c20Load struct {
 	ViaFile bool      `json:"via_consult,omitempty"`
 	// NoFinalStop: the last item's terminating full stop is removed (a truncated text)
 	NoFinalStop bool `json:"no_final_stop,omitempty"`
+	// Tail: an unfinished token or comment appended after the last item, with nothing after it
+	Tail string `json:"tail,omitempty"`
 }
 
 type c20Case struct {
@@ -77,6 +82,7 @@ func (l *c20Load) text() string {
 		}
 		sb.WriteString(t + "\n")
 	}
+	sb.WriteString(l.Tail)
 	return sb.String()
 }
 
@@ -189,6 +195,9 @@ func (d c20DB) load(l *c20Load) (c20DB, string, bool, bool) {
 			lastRun = ""
 		}
 	}
+	if l.Tail != "" {
+		return d, out, true, false // a text that ends inside a token or a comment is a syntax error
+	}
 	n := d.clone()
 	for _, k := range order {
 		s := staged[k]
@@ -280,6 +289,9 @@ func c20Run(c *c20Case) (exp, act, sig string, ok bool) {
 						if it.Kind == "fault" {
 							kind = "fault " + it.Text
 						}
+					}
+					if kind == "fault" && l.Tail != "" {
+						kind = "the text ends inside a token or comment"
 					}
 					if kind == "fault" {
 						kind = "clauses separated without discontiguous/1"
@@ -424,6 +436,12 @@ func c20Work(w *h.W) {
 				}
 				emit(&c20Case{Loads: []c20Load{{Items: first}, {Items: t, NoFinalStop: true}}}, len(t)+len(first))
 			}
+			for _, tail := range c20Tails {
+				if !w.Mine() {
+					continue
+				}
+				emit(&c20Case{Loads: []c20Load{{Items: first}, {Items: t, Tail: tail}}}, len(t)+len(first)+1)
+			}
 		}
 	}
 	// (3) two-load histories: every small text, then every text of <= 2..3 items (redefinition,
@@ -456,7 +474,7 @@ func c20Replay(b []byte) (string, string, bool) {
 func init() {
 	h.Register(&h.Check{
 		ID: "C20",
-		Rule: "all program texts that are sequences of <= N items out of 15 (facts and a rule of p/1, q/1, r/1, a grammar rule, dynamic/discontiguous/multifile declarations, initialization goals and directives that OBSERVE the database by writing one character per answer) loaded through Exec and through consult/1 from an in-memory fs.FS; fault enumeration: into every text of <= N-1 items, at every position, each of 6 faults (unbalanced parenthesis, missing operator, unterminated quote, a number as clause, a number as body, stray close) plus the text truncated before its final full stop, each on top of every small earlier load; two-load histories: every small text followed by every text of <= 2..3 items. Distinct = texts.",
+		Rule: "all program texts that are sequences of <= N items out of 15 (facts and a rule of p/1, q/1, r/1, a grammar rule, dynamic/discontiguous/multifile declarations, initialization goals and directives that OBSERVE the database by writing one character per answer) loaded through Exec and through consult/1 from an in-memory fs.FS; fault enumeration: into every text of <= N-1 items, at every position, each of 6 faults (unbalanced parenthesis, missing operator, unterminated quote, a number as clause, a number as body, stray close) plus the text truncated before its final full stop and the text followed by each of 9 unfinished tokens / comments (quoted atom, string, bracketed comment, 0', a continuation escape, an open argument list, a bare name), each on top of every small earlier load; two-load histories: every small text followed by every text of <= 2..3 items. Distinct = texts.",
 		Explanation: "state = the reference database after the loads so far (per predicate: clauses in order, dynamic/multifile/discontiguous flags); transition = one load on the real interpreter; the reference loader stages the text, fails as a whole on any fault or on clauses separated without discontiguous/1, commits (replace, or append when both definitions are multifile), then runs initialization goals; compared after every load: error or not, the output of directives (at their position, seeing earlier loads only) and initialization goals (after the commit), and the answers of every predicate of the signature in order",
 		Assumptions: []string{"what a directive sees of its OWN text's preceding clauses is not fixed by the property and is never asserted (the observing directive only looks at r/1, which those texts do not define)", "a failing or throwing directive / initialization goal is not generated"},
 		Work:        c20Work,
